@@ -34,6 +34,9 @@ def run (j : Json) : Json :=
     if jbool impl "race" then s!"data race reported by the race detector: {(jget j "pair").compress}"
     else if jbool impl "deadlock" then "handler or background goroutine stuck (goroutine dump in report)"
     else if jbool impl "panic" then "panic"
+    else if !diffs.isEmpty && jstr diffs[0]! "k" == "diag" then
+      let d := diffs[0]!
+      s!"the include-level diagnostics last published for document {(jget d "d").compress} are not those of its own include tree (sequential replay): got {(jget d "got").compress}, want {(jget d "want").compress}"
     else if !diffs.isEmpty then
       let d := diffs[0]!
       s!"response {jstr d "k"} at op {(jget d "i").compress} differs from the sequential replay (ws={jbool d "ws"}, include={jbool d "inc"}, inflight={jnat d "inflight"}, diagoff={jbool d "diagoff"})"
